@@ -43,7 +43,9 @@ var (
 		"e=%2F%2f", "c=:@!$'()*,", "long=" + strings.Repeat("q", 300)}
 	singletons = []string{"Content-Type", "Authorization", "Referer", "Origin", "If-None-Match", "If-Modified-Since",
 		"Range", "Accept-Encoding", "User-Agent", "X-Requested-With", "Content-Encoding", "Content-Language", "Date",
-		"Max-Forwards", "From", "If-Match", "DNT"}
+		"Max-Forwards", "From", "If-Match", "DNT",
+		// end-to-end fields whose names merely resemble hop-by-hop ones
+		"Proxy-Status", "Proxy-Support", "Connection-Id", "Keep-Alive-Info", "Upgrade-Insecure-Requests", "Trailer-Info", "Te-Custom"}
 	listFields = []string{"Accept", "Accept-Language", "Cache-Control", "Cookie", "Via", "X-Forwarded-For", "Pragma",
 		"Accept-Charset", "Forwarded"}
 	hopFields = [][2]string{{"Connection", "keep-alive"}, {"Keep-Alive", "timeout=5"}, {"Proxy-Authorization", "Basic Zm9vOmJhcg=="},
